@@ -319,6 +319,10 @@ func safeTod(s string) (ok bool, secs, off int) {
 	return true, t.Hour()*3600 + t.Minute()*60 + t.Second(), o
 }
 
+// NominalNow is the value the model uses for time.Now() (requests without X-Bfe-Debug-Time); the generators only
+// produce windows whose verdict is the same for every clock value between 2020 and 2090.
+const NominalNow = 1900000000
+
 // Oracle evaluates the external library functions on every string the model may ask about:
 // texts (string arguments and their |-parts, the debug time header), regex (pattern, subject) pairs,
 // hash subjects, raw IPs.
@@ -397,7 +401,7 @@ func Oracle(name string, args []Arg, r *Req) hv.Val {
 			}
 		}
 	}
-	return hv.L{ipt, ret, rmt, tit, tot, hat, ist}
+	return hv.L{ipt, ret, rmt, tit, tot, hat, ist, hv.Z(NominalNow)}
 }
 
 // Primitives: the documented primitive names with their argument kinds (harness-side copy used only to
